@@ -14,7 +14,9 @@ import (
 	"strconv"
 	"unsafe"
 
+	"github.com/nspcc-dev/neo-go/pkg/config"
 	"github.com/nspcc-dev/neo-go/pkg/core/fee"
+	"github.com/nspcc-dev/neo-go/pkg/smartcontract/trigger"
 	"github.com/nspcc-dev/neo-go/pkg/util"
 	"github.com/nspcc-dev/neo-go/pkg/vm"
 	"github.com/nspcc-dev/neo-go/pkg/vm/opcode"
@@ -368,7 +370,12 @@ type cfg struct {
 	Gas      int64 `json:"gas_limit_datoshi"` // -1: unlimited
 	Base     int64 `json:"base_price_picogas"`
 	MaxSteps int   `json:"max_steps"`
-	UseRun   bool  `json:"use_run,omitempty"` // one Run() call instead of Step()s (no per-step oracle)
+	UseRun   bool  `json:"use_run,omitempty"`      // one Run() call instead of Step()s (no per-step oracle)
+	NoHF     bool  `json:"no_hardforks,omitempty"` // SetIsHardforkEnabled(always false): the pre-hardfork branches
+	// Reuse > 0: the VM first runs dirty prelude number Reuse (reusePrelude), is
+	// Reset() and re-initialised the way interop.Context.ReuseVM does, and only
+	// then loads the script. Reuse < 0: same prelude, but no Reset (plain reload).
+	Reuse int `json:"reuse_prelude,omitempty"`
 }
 
 type finding struct {
@@ -446,10 +453,6 @@ func safeRun(v *vm.VM) (err error, pan any) {
 // exec runs script under c and evaluates the oracle.
 func exec(script []byte, c cfg, o execOpts) (res result) {
 	v := vm.New()
-	if c.Base > 0 {
-		v.SetPriceGetter(price(c.Base))
-	}
-	v.SetGasLimit(c.Gas)
 	w := o.w
 	if w == nil {
 		w = newWalker()
@@ -462,8 +465,12 @@ func exec(script []byte, c cfg, o execOpts) (res result) {
 		pre    [3]byte // kinds of the top stack items before the current instruction
 		npre   int
 		atEnd  bool
+		live   = c.Reuse == 0
 	)
 	v.SetOnExecHook(func(h util.Uint160, ip int, op opcode.Opcode) {
+		if !live {
+			return
+		}
 		hookIP, hookOp = ip, op
 		b, n := o.bounds, len(script)
 		if o.boundsBy != nil {
@@ -478,8 +485,31 @@ func exec(script []byte, c cfg, o execOpts) (res result) {
 			own += fee.Opcode(c.Base, op)
 		}
 	})
+	if c.Reuse != 0 {
+		pre, steps := reusePrelude(c.Reuse)
+		v.SetPriceGetter(price(7))
+		v.SetGasLimit(1 << 40)
+		v.Load(pre)
+		for i := 0; i < steps && !v.HasStopped() && v.Context() != nil; i++ {
+			if _, pan := safeStep(v); pan != nil {
+				break
+			}
+		}
+		if c.Reuse > 0 {
+			v.Reset(trigger.Application)
+		}
+		live = true
+	}
+	if c.Base > 0 {
+		v.SetPriceGetter(price(c.Base))
+	}
+	v.SetGasLimit(c.Gas)
+	if c.NoHF {
+		v.SetIsHardforkEnabled(func(config.Hardfork) bool { return false })
+	}
 	if o.tbl != nil {
-		v.SyscallHandler = loader(o.tbl)
+		v.SyscallHandler = loader(o.tbl, &own)
+		v.LoadToken = tokenLoader(v, o.tbl, &own)
 	}
 	v.Load(script)
 	fail := func(kind, msg string) {
@@ -680,4 +710,46 @@ func arity(op opcode.Opcode) int {
 		return 2
 	}
 	return 1
+}
+
+// reusePrelude: what ran on the VM before it is reused. Returns the script and
+// how many instructions of it are executed before it is abandoned.
+//
+//	1 halts, leaving a compound and a primitive on the result stack, statics set
+//	2 faults two calls deep with locals, statics, an open try block and a cyclic array
+//	3 is abandoned inside a finally block with an exception pending
+func reusePrelude(k int) ([]byte, int) {
+	if k < 0 {
+		k = -k
+	}
+	a := &asm{}
+	switch k {
+	case 1:
+		a.op(opcode.INITSSLOT)
+		a.raw(1)
+		a.op(opcode.NEWARRAY0, opcode.DUP, opcode.STSFLD0, opcode.PUSH5)
+		return a.bytes(), 100
+	case 2:
+		f, c := a.newLabel(), a.newLabel()
+		a.op(opcode.INITSSLOT)
+		a.raw(2)
+		a.op(opcode.NEWMAP, opcode.STSFLD0, opcode.PUSH7)
+		a.try(opcode.TRY, c, -1)
+		a.jmp(opcode.CALL, f)
+		a.here(c)
+		a.op(opcode.RET)
+		a.here(f)
+		a.op(opcode.INITSLOT)
+		a.raw(2, 0)
+		a.op(opcode.NEWARRAY0, opcode.DUP, opcode.DUP, opcode.APPEND, opcode.STLOC0, opcode.NEWSTRUCT0, opcode.ABORT)
+		return a.bytes(), 100
+	default:
+		f := a.newLabel()
+		a.op(opcode.PUSH3)
+		a.try(opcode.TRY, -1, f)
+		a.op(opcode.NEWSTRUCT0, opcode.THROW)
+		a.here(f)
+		a.op(opcode.NOP, opcode.NOP, opcode.ENDFINALLY)
+		return a.bytes(), 5 // PUSH3, TRY, NEWSTRUCT0, THROW, NOP: inside finally, exception pending
+	}
 }
